@@ -1,168 +1,69 @@
 /-
   C02 — property theorems.  Every `theorem` in this file is a proof obligation of the check.
-  Helper lemmas: IcingaProofs/C02/Lemmas.lean.
+  Helper lemmas: IcingaProofs/C02/Lemmas.lean, IcingaProofs/C02/Core.lean (simulation relation `Rel`,
+  operations, the per-step lemmas about the request clauses).
 
-  The model (IcingaModel/C02/Model.lean) transcribes the code *after* the two repairs of this round
+  The model (IcingaModel/C02/Model.lean) transcribes the code *after* the two repairs of round 1
   (`fix:` commits in /repo): F-C02a (hosts compare UP/DOWN when releasing) and F-C02b (volatile objects
   do not request a Recovery when leaving a soft problem state).  With the repairs the property is
   proved at full strength; before them the check reported both as violations with replays.
 -/
-import IcingaProofs.C02.Lemmas
+import IcingaProofs.C02.Core
 
 namespace Icinga.C02
 open Icinga.C01
 
-/-- Model state and specification bookkeeping describe the same situation. -/
-def Rel (c : Cfg) (sp : SpecSt) (s : St) : Prop :=
-  sp.state = s.core.state ∧ sp.stype = s.core.stype ∧
-  (isOK c.kind s.core.state = true → s.core.stype = .hard) ∧
-  sp.pending = pendOf s.sup.hasState s.sbs ∧
-  sp.flapPending = flapOf s.sup.flapStart s.sup.flapEnd ∧
-  (s.sup.flapStart && s.sup.flapEnd) = false
-
-theorem rel_init (c : Cfg) : Rel c specInit init := by
-  simp [Rel, specInit, init, C01.pending, pendOf, flapOf, Sup.hasState, isOK, hostUp]
-  cases c.kind <;> simp
-
-/-- Operations of the model: a check result with the environment the code reads, or a run of the
-    suppressed-notification handler with its environment. -/
-inductive Op
-  | result (r : Res) (e : REnv)
-  | fire (e : FEnv)
-
-def applyOp (c : Cfg) (s : St) : Op → St × Obs
-  | .result r e =>
-    let o := resultStep c s r e
-    (o.1, .result o.2.2 o.1.core.state o.1.core.stype e o.2.1)
-  | .fire e =>
-    let o := fireStep c s e
-    (o.1, .fire e o.2)
-
-def traceOf (c : Cfg) : St → List Op → List Obs
-  | _, [] => []
-  | s, op :: rest => let p := applyOp c s op; p.2 :: traceOf c p.1 rest
-
 /-- **result_step_meets_spec.**  One processed result: the requests satisfy the property's clauses for
     results (flapping exactly on a toggle; Problem/Recovery exactly on a hard event; nothing while
-    flapping, paused, suppressed or while earlier events are withheld; the remembered state is the hard
-    state before suppression began) and the relation is re-established. -/
+    flapping, paused, suppressed or while earlier events are withheld), the two attributes remember the
+    withheld event and the hard state before suppression began, and the relation is re-established. -/
 theorem result_step_meets_spec (c : Cfg) (hmax : 1 ≤ c.max) (sp : SpecSt) (s : St) (r : Res) (e : REnv)
     (hr : Rel c sp s) :
     (specStep c sp (applyOp c s (.result r e)).2).1 = none ∧
     Rel c (specStep c sp (applyOp c s (.result r e)).2).2 (applyOp c s (.result r e)).1 := by
-  obtain ⟨core, ⟨p, r', s3, s4⟩, sbs⟩ := s
-  obtain ⟨hs, ht, hok, hp, hf, hx⟩ := hr
-  simp only at hs ht hok hp hf hx
-  simp only [applyOp, resultStep]
-  cases hst : stale core r
-  · -- accepted
-    simp only [Bool.false_eq_true, if_false, specStep]
-    obtain ⟨u0, u1, u2, u3, u4⟩ := step_universal c hmax core r
-    have h1 : isOK c.kind (stepCore c core r).1.state = true → (stepCore c core r).1.stype = .hard := by
-      intro h; rw [u0] at h; exact (u1 h).1
-    have hsend := sendOf_eq_hardEvent c core (stepCore c core r).1.state (stepCore c core r).1.stype h1 hok
-    obtain ⟨f1, f2, f3, f4⟩ := flapPartOf_shape e (stepCore c core r).1.state
-    have hfl := flap_result e (stepCore c core r).1.state s3 s4 hx
-    have hev := hardEvent_type c core.state core.stype (stepCore c core r).1.state (stepCore c core r).1.stype
-    have hsr := state_result (hardEvent c core.state core.stype (stepCore c core r).1.state (stepCore c core r).1.stype)
-      (isOK c.kind (stepCore c core r).1.state && !isOK c.kind core.state) p r' sbs
-      (if core.stype == .hard then core.state else .ok) e (stepCore c core r).1.state hev
-    obtain ⟨g1, g2, g3⟩ := statePartOf_shape (sendOf c core (stepCore c core r).1.state (stepCore c core r).1.stype)
-      (isOK c.kind (stepCore c core r).1.state && !isOK c.kind core.state) (Sup.hasState ⟨p, r', s3, s4⟩) e (stepCore c core r).1.state
-    obtain ⟨fp, spp⟩ := filter_split _ _ f4 g3
-    have hstash := stash_spec p r' s3 s4
-      (statePartOf (sendOf c core (stepCore c core r).1.state (stepCore c core r).1.stype)
-        (isOK c.kind (stepCore c core r).1.state && !isOK c.kind core.state) (Sup.hasState ⟨p, r', s3, s4⟩) e (stepCore c core r).1.state).1.problem
-      (statePartOf (sendOf c core (stepCore c core r).1.state (stepCore c core r).1.stype)
-        (isOK c.kind (stepCore c core r).1.state && !isOK c.kind core.state) (Sup.hasState ⟨p, r', s3, s4⟩) e (stepCore c core r).1.state).1.recovery
-      (flapPartOf e (stepCore c core r).1.state).1.flapStart (flapPartOf e (stepCore c core r).1.state).1.flapEnd
-      sbs core.state core.stype hx f3
-    simp only [Sup.hasState] at hsr hstash hp fp spp
-    simp only [notifyOnResult, specResult, hs, ht, hp, hf, Sup.hasState]
-    rw [hsend] at fp spp hstash ⊢
-    rw [fp, spp]
-    obtain ⟨a1, a2⟩ := hfl
-    obtain ⟨b1, b2⟩ := hsr
-    obtain ⟨c1, c2, c3, c4, c5⟩ := hstash
-    refine ⟨?_, rfl, rfl, h1, ?_, ?_, ?_⟩
-    · rw [a1, b1]
-    · dsimp only [Sup.hasState]; rw [b2, c1, c2, c5]
-      congr
-    · dsimp only; rw [a2, c3, c4]
-    · dsimp only; rw [c3, c4]
-      cases h3 : s3 <;> cases h4 : s4 <;>
-        cases (flapPartOf e (stepCore c core r).1.state).1.flapStart <;>
-        cases (flapPartOf e (stepCore c core r).1.state).1.flapEnd <;> simp_all
-  · -- dropped as stale: nothing is requested, nothing changes
-    simp only [if_true, specStep]
-    exact ⟨by simp, hs, ht, hok, hp, hf, hx⟩
+  obtain ⟨h1, h2⟩ := result_step_core c hmax sp s r e hr
+  obtain ⟨o1, o2⟩ := applyOp_obs c s (.result r e)
+  have h3 := remembered_of_rel c _ _ h2
+  unfold specStep
+  simp only [h1, o1, o2, h3]
+  exact ⟨trivial, h2⟩
 
 /-- **fire_step_meets_spec.**  One run of the suppressed-notification handler: never while a suppression
     reason holds, never without a withheld event, no release before the object rests in a hard state
-    and is settled, and at release exactly one notification iff the state differs from the remembered
-    one (Recovery iff OK/Up now); afterwards nothing is withheld. -/
+    and is settled (next check not imminent — computed from `enable_active_checks`, `check_interval`
+    and `next_check`, not taken from the implementation —, no parent recovered since the last
+    result), at release exactly one notification iff the state differs from the remembered one
+    (Recovery iff OK/Up now), afterwards nothing is withheld; the attributes agree with that. -/
 theorem fire_step_meets_spec (c : Cfg) (sp : SpecSt) (s : St) (e : FEnv) (hr : Rel c sp s) :
     (specStep c sp (applyOp c s (.fire e)).2).1 = none ∧
     Rel c (specStep c sp (applyOp c s (.fire e)).2).2 (applyOp c s (.fire e)).1 := by
-  obtain ⟨hs, ht, hok, hp, hf, hx⟩ := hr
-  simp only [applyOp, specStep, specFire]
-  rw [fireStep_eq]
-  have hA := fire_state_spec c s e sp hs ht hp
-  have hB := fire_flap_spec s e sp hs hf hx
-  have sA := fireState_shape c s e
-  have sFS := fireFlapOne_shape e s.core.state s.sup.flapStart e.isFlapping .flapStart (Or.inl rfl)
-  have sFE := fireFlapOne_shape e s.core.state s.sup.flapEnd (!e.isFlapping) .flapEnd (Or.inr rfl)
-  cases hoff : (e.paused || !e.enabled)
-  · simp only [hoff, Bool.false_eq_true, if_false] at hA hB ⊢
-    have hflapAll : ∀ n ∈ (fireFlapOne e s.core.state s.sup.flapStart e.isFlapping .flapStart).2 ++
-        (fireFlapOne e s.core.state s.sup.flapEnd (!e.isFlapping) .flapEnd).2, isFlap n = true := by
-      intro n hn; rcases List.mem_append.mp hn with h | h
-      · exact sFS n h
-      · exact sFE n h
-    have hsplit := filter_split (fireFlapOne e s.core.state s.sup.flapStart e.isFlapping .flapStart).2 []
-      sFS (by simp)
-    -- reorder a.2 ++ fs.2 ++ fe.2 into state part followed by flapping part for filtering
-    have hfp : flapPart ((fireState c s e).2 ++ (fireFlapOne e s.core.state s.sup.flapStart e.isFlapping .flapStart).2 ++
-        (fireFlapOne e s.core.state s.sup.flapEnd (!e.isFlapping) .flapEnd).2) =
-        (fireFlapOne e s.core.state s.sup.flapStart e.isFlapping .flapStart).2 ++
-        (fireFlapOne e s.core.state s.sup.flapEnd (!e.isFlapping) .flapEnd).2 := by
-      unfold flapPart
-      rw [List.append_assoc, List.filter_append]
-      rw [List.filter_eq_nil_iff.mpr (by intro n hn; simp [sA n hn]), List.nil_append]
-      exact List.filter_eq_self.mpr hflapAll
-    have hsp : statePart ((fireState c s e).2 ++ (fireFlapOne e s.core.state s.sup.flapStart e.isFlapping .flapStart).2 ++
-        (fireFlapOne e s.core.state s.sup.flapEnd (!e.isFlapping) .flapEnd).2) = (fireState c s e).2 := by
-      unfold statePart
-      rw [List.append_assoc, List.filter_append]
-      rw [List.filter_eq_self.mpr (by intro n hn; simp [sA n hn])]
-      rw [List.filter_eq_nil_iff.mpr (by intro n hn; simp [hflapAll n hn]), List.append_nil]
-    rw [hfp, hsp]
-    obtain ⟨a1, a2⟩ := hA
-    obtain ⟨b1, b2⟩ := hB
-    refine ⟨by rw [a1, b1], hs, ht, hok, ?_, ?_, ?_⟩
-    · simp only [a2, Sup.hasState]
-    · simp only [b2]
-    · cases h3 : s.sup.flapStart <;> cases h4 : s.sup.flapEnd <;> simp_all
-  · simp only [hoff, if_true] at hA hB ⊢
-    obtain ⟨a1, a2⟩ := hA
-    obtain ⟨b1, b2⟩ := hB
-    simp only [List.append_nil, Bool.not_false, Bool.and_true] at a1 a2 b1 b2
-    have e1 : statePart ([] : List Notif) = [] := rfl
-    have e2 : flapPart ([] : List Notif) = [] := rfl
-    rw [e1, e2]
-    refine ⟨by rw [a1, b1], hs, ht, hok, ?_, ?_, hx⟩
-    · rw [a2]; simp only [Sup.hasState]
-    · rw [b2]
+  obtain ⟨h1, h2⟩ := fire_step_core c sp s e hr
+  obtain ⟨o1, o2⟩ := applyOp_obs c s (.fire e)
+  have h3 := remembered_of_rel c _ _ h2
+  unfold specStep
+  simp only [h1, o1, o2, h3]
+  exact ⟨trivial, h2⟩
 
-/-- **model_trace_meets_spec** (the whole property).  For every configuration with
-    `max_check_attempts ≥ 1` and every finite sequence of check results and handler runs — with
-    arbitrary environments (downtime, acknowledgement, reachability, flapping, pause, notification
-    switch, imminence of the next check, parent recovery) at every step — the model's trace satisfies
-    the executable specification `specTrace`. -/
-theorem model_trace_meets_spec (c : Cfg) (hmax : 1 ≤ c.max) (ops : List Op) :
-    specTrace c specInit (traceOf c init ops) = none := by
+/-- The specification's bookkeeping as read off an object's attributes (a restored or synchronised
+    object: `suppressed_notifications`, `state_before_suppression`, state, state type). -/
+def specOf (s : St) : SpecSt :=
+  { state := s.core.state, stype := s.core.stype, pending := pendOf s.sup.hasState s.sbs,
+    flapPending := flapOf s.sup.flapStart s.sup.flapEnd }
+
+/-- A start state the code can be in: an OK/Up state is hard (C01 invariant) and FlappingStart and
+    FlappingEnd are not both withheld (they cancel when stashed). -/
+def StartOK (c : Cfg) (s : St) : Prop :=
+  (isOK c.kind s.core.state = true → s.core.stype = .hard) ∧ (s.sup.flapStart && s.sup.flapEnd) = false
+
+/-- **model_trace_meets_spec_from** (the whole property, from any start).  For every configuration with
+    `max_check_attempts ≥ 1`, every start state satisfying `StartOK` — whatever is withheld and
+    remembered in it, e.g. after a restart or a failover — and every finite sequence of check results
+    and handler runs with arbitrary environments at every step, the model's trace satisfies the
+    executable specification started from the bookkeeping read off that state. -/
+theorem model_trace_meets_spec_from (c : Cfg) (hmax : 1 ≤ c.max) (s0 : St) (h0 : StartOK c s0) (ops : List Op) :
+    specTrace c (specOf s0) (traceOf c s0 ops) = none := by
   suffices h : ∀ (ops : List Op) (sp : SpecSt) (s : St), Rel c sp s → specTrace c sp (traceOf c s ops) = none from
-    h ops specInit init (rel_init c)
+    h ops (specOf s0) s0 ⟨rfl, rfl, h0.1, rfl, rfl, h0.2⟩
   intro ops
   induction ops with
   | nil => intro sp s _; rfl
@@ -183,6 +84,15 @@ theorem model_trace_meets_spec (c : Cfg) (hmax : 1 ≤ c.max) (ops : List Op) :
       simp only at h1; subst h1
       exact ih _ _ h2
 
+/-- **model_trace_meets_spec** (the whole property, from a never-checked object). -/
+theorem model_trace_meets_spec (c : Cfg) (hmax : 1 ≤ c.max) (ops : List Op) :
+    specTrace c specInit (traceOf c init ops) = none := by
+  have h := model_trace_meets_spec_from c hmax init ?_ ops
+  · exact h
+  · constructor
+    · intro h; cases hk : c.kind <;> simp [init, C01.pending, isOK, hostUp, hk] at h
+    · rfl
+
 /-- **never_while_suppressed.**  While a suppression reason holds the handler requests no state
     notification and keeps the withheld event. -/
 theorem never_while_suppressed (c : Cfg) (s : St) (e : FEnv) (h : e.stateSuppressed = true) :
@@ -200,56 +110,86 @@ theorem never_while_suppressed (c : Cfg) (s : St) (e : FEnv) (h : e.stateSuppres
     · simp [fireFlapOne_shape e s.core.state s.sup.flapEnd (!e.isFlapping) .flapEnd (Or.inr rfl) n h']
   · simp [statePart]
 
-/-- **release_when_clean.**  With state notifications withheld, no suppression reason, a hard state, no
-    imminent check and no recent parent recovery: exactly one state notification iff the (projected)
-    state differs from the remembered one, of type Recovery iff the state is OK/Up; afterwards no
-    state notification is withheld. -/
-theorem release_when_clean (c : Cfg) (s : St) (e : FEnv)
-    (hp : s.sup.hasState = true) (h1 : e.paused = false) (h2 : e.enabled = true)
-    (h3 : e.stateSuppressed = false) (h4 : s.core.stype = .hard) (h5 : e.likelySoon = false)
-    (h6 : e.parentRecent = false) :
-    statePart (fireStep c s e).2 =
+/-- **never_two.**  Over any number of consecutive handler runs, from any state and under arbitrary
+    environments, at most one state notification is requested in total; none at all if nothing is
+    withheld at the start. -/
+theorem never_two (c : Cfg) (s : St) (es : List FEnv) :
+    (statePart (fireRun c s es).2).length ≤ 1 ∧
+    (s.sup.hasState = false → statePart (fireRun c s es).2 = []) := by
+  induction es generalizing s with
+  | nil => simp [fireRun, statePart]
+  | cons e es ih =>
+    obtain ⟨a1, a2, _, _⟩ := fireStep_state c s e
+    obtain ⟨i1, i2⟩ := ih (fireStep c s e).1
+    simp only [fireRun, statePart_append, a1, List.length_append]
+    rw [a2] at i2
+    cases hp : s.sup.hasState
+    · simp only [Bool.false_and, Bool.false_eq_true, if_false, List.length_nil, List.nil_append, Nat.zero_add]
+      have := i2 (by simp [hp])
+      exact ⟨by simp [this], fun _ => this⟩
+    · cases hr : ready s e
+      · simp only [Bool.and_false, Bool.false_and, Bool.false_eq_true, if_false, List.length_nil, List.nil_append, Nat.zero_add]
+        exact ⟨i1, by simp⟩
+      · have := i2 (by simp [hp, hr])
+        rw [this]
+        refine ⟨?_, by simp⟩
+        split <;> simp
+
+/-- **withheld_event_kept_until_ready.**  Handler runs at which the release conditions do not all hold
+    (any of: paused, notifications off, a suppression reason, soft state, imminent check, recent
+    parent recovery) request no state notification and keep the withheld event and the remembered
+    state — however many there are. -/
+theorem withheld_event_kept_until_ready (c : Cfg) (s : St) (es : List FEnv)
+    (hn : ∀ e ∈ es, ready s e = false) :
+    statePart (fireRun c s es).2 = [] ∧ (fireRun c s es).1.sup.hasState = s.sup.hasState ∧
+    (fireRun c s es).1.sbs = s.sbs ∧ (fireRun c s es).1.core = s.core := by
+  induction es generalizing s with
+  | nil => simp [fireRun, statePart]
+  | cons e es ih =>
+    obtain ⟨a1, a2, a3, a4⟩ := fireStep_state c s e
+    have he : ready s e = false := hn e (by simp)
+    have hn' : ∀ e' ∈ es, ready (fireStep c s e).1 e' = false := by
+      intro e' h'
+      have := hn e' (by simp [h'])
+      simpa [ready, a4] using this
+    obtain ⟨i1, i2, i3, i4⟩ := ih (fireStep c s e).1 hn'
+    simp only [fireRun, statePart_append, a1, i1, he]
+    refine ⟨by simp, ?_, ?_, ?_⟩
+    · rw [i2, a2, he]; simp
+    · rw [i3, a3]
+    · rw [i4, a4]
+
+/-- **release_at_first_ready_firing** (the liveness half of the property's quantifier).  With state
+    notifications withheld: after any number of handler runs at which the release conditions do not
+    all hold, the first run at which they do — not paused, notifications enabled, no suppression
+    reason, hard state, next check not imminent, no parent recovered since the last result —
+    requests exactly one state notification iff the (projected) state differs from the remembered
+    one, of type Recovery iff the state is OK/Up, and none otherwise; afterwards nothing is withheld,
+    and no later run requests another one. -/
+theorem release_at_first_ready_firing (c : Cfg) (s : St) (es : List FEnv) (e : FEnv) (later : List FEnv)
+    (hp : s.sup.hasState = true) (hn : ∀ e' ∈ es, ready s e' = false) (hr : ready s e = true) :
+    statePart (fireRun c s (es ++ e :: later)).2 =
       (if proj c.kind s.core.state != proj c.kind s.sbs
        then [⟨if isOK c.kind s.core.state then .recovery else .problem, s.core.state⟩] else []) ∧
-    (fireStep c s e).1.sup.hasState = false := by
-  rw [fireStep_eq]
-  have ha : fireState c s e = (true, if proj c.kind s.core.state != proj c.kind s.sbs
-       then [⟨if isOK c.kind s.core.state then .recovery else .problem, s.core.state⟩] else []) := by
-    simp [fireState, releaseNow, differs, hp, h3, h4, h5, h6]
-  simp only [h1, h2, Bool.not_true, Bool.or_false, Bool.false_eq_true, if_false, ha, Sup.hasState,
-    Bool.not_true, Bool.and_false, Bool.or_self, and_true]
-  unfold statePart
-  rw [List.append_assoc, List.filter_append]
-  have hA : ∀ n ∈ (if proj c.kind s.core.state != proj c.kind s.sbs
-       then [(⟨if isOK c.kind s.core.state then .recovery else .problem, s.core.state⟩ : Notif)] else []), isFlap n = false := by
-    intro n hn
-    cases hd : (proj c.kind s.core.state != proj c.kind s.sbs) <;> cases ho : isOK c.kind s.core.state <;> simp_all [isFlap]
-  rw [List.filter_eq_self.mpr (by intro n hn; simp [hA n hn])]
-  have : List.filter (fun n => !isFlap n)
-      ((fireFlapOne e s.core.state s.sup.flapStart e.isFlapping .flapStart).2 ++
-       (fireFlapOne e s.core.state s.sup.flapEnd (!e.isFlapping) .flapEnd).2) = [] := by
-    apply List.filter_eq_nil_iff.mpr
-    intro n hn
-    rcases List.mem_append.mp hn with h' | h'
-    · simp [fireFlapOne_shape e s.core.state s.sup.flapStart e.isFlapping .flapStart (Or.inl rfl) n h']
-    · simp [fireFlapOne_shape e s.core.state s.sup.flapEnd (!e.isFlapping) .flapEnd (Or.inr rfl) n h']
-  rw [this, List.append_nil]
-
-/-- **never_two.**  Once nothing is withheld, the handler requests no state notification, whatever the
-    environment: a withheld event is released at most once. -/
-theorem never_two (c : Cfg) (s : St) (e : FEnv) (hp : s.sup.hasState = false) :
-    statePart (fireStep c s e).2 = [] := by
-  rw [fireStep_eq]
-  cases hoff : (e.paused || !e.enabled)
-  · have ha : fireState c s e = (false, []) := by simp [fireState, hp]
-    simp only [Bool.false_eq_true, if_false, ha, List.nil_append]
-    unfold statePart
-    apply List.filter_eq_nil_iff.mpr
-    intro n hn
-    rcases List.mem_append.mp hn with h' | h'
-    · simp [fireFlapOne_shape e s.core.state s.sup.flapStart e.isFlapping .flapStart (Or.inl rfl) n h']
-    · simp [fireFlapOne_shape e s.core.state s.sup.flapEnd (!e.isFlapping) .flapEnd (Or.inr rfl) n h']
-  · simp [statePart]
+    (fireRun c s (es ++ [e])).1.sup.hasState = false := by
+  have happ : ∀ (s : St) (a b : List FEnv), fireRun c s (a ++ b) =
+      ((fireRun c (fireRun c s a).1 b).1, (fireRun c s a).2 ++ (fireRun c (fireRun c s a).1 b).2) := by
+    intro s a b
+    induction a generalizing s with
+    | nil => simp [fireRun]
+    | cons x xs ih => simp [fireRun, ih, List.append_assoc]
+  obtain ⟨k1, k2, k3, k4⟩ := withheld_event_kept_until_ready c s es hn
+  have hr' : ready (fireRun c s es).1 e = true := by simpa [ready, k4] using hr
+  obtain ⟨a1, a2, _, _⟩ := fireStep_state c (fireRun c s es).1 e
+  constructor
+  · rw [happ, statePart_append, k1, List.nil_append]
+    simp only [fireRun, statePart_append, a1]
+    have hl := (never_two c (fireStep c (fireRun c s es).1 e).1 later).2 (by rw [a2, hr']; simp)
+    rw [hl, List.append_nil, k2, k3, k4, hp, hr']
+    simp [differs]
+  · rw [happ]
+    simp only [fireRun]
+    rw [a2, hr']; simp
 
 /-- **immediate_request** (first sentence of the property, on the model): a processed result requests a
     state notification at once iff it is a hard event of the property, the object is neither flapping
@@ -289,21 +229,119 @@ theorem immediate_request (c : Cfg) (hmax : 1 ≤ c.max) (s : St) (r : Res) (e :
 def exCfg : Cfg := { kind := .service, max := 1, volatile := false }
 def envClean : REnv := ⟨true, false, false, false, false, false⟩
 def envDowntime : REnv := ⟨true, true, false, false, false, false⟩
-def fireClean : FEnv := ⟨false, true, false, false, false, false, false⟩
+/-- active checks, check_interval 5 min, next check in 4 min -/
+def fireClean : FEnv := ⟨false, true, false, false, false, true, 300000000, 240000000, false⟩
+/-- active checks, check_interval 30 s, next check in 25 s: not imminent (25 s > 30 s − 10 s) -/
+def fireShort : FEnv := { fireClean with interval := 30000000, nextIn := 25000000 }
+
+def fireSuppressed : FEnv := { fireClean with stateSuppressed := true }
+def fireSoon : FEnv := { fireShort with nextIn := 20000000 }
+
+def notifsOf : Obs → List Notif | .result _ _ _ _ ns _ _ => ns | .fire _ ns _ _ => ns
 
 /-- OK, then CRITICAL inside a downtime (withheld, remembered state OK), then release: one Problem. -/
-example : (traceOf exCfg init [.result ⟨.ok, 1, 1⟩ envClean, .result ⟨.critical, 2, 2⟩ envDowntime, .fire fireClean]).map
-    (fun o => match o with | .result _ _ _ _ ns => ns | .fire _ ns => ns) =
+example : (traceOf exCfg init [.result ⟨.ok, 1, 1⟩ envClean, .result ⟨.critical, 2, 2⟩ envDowntime, .fire fireClean]).map notifsOf =
     [[], [], [⟨.problem, .critical⟩]] := by decide
+
+/-- The same with a 30 s check interval and the next check 25 s away: released (not imminent); with the
+    next check 20 s away: kept. -/
+example : (traceOf exCfg init [.result ⟨.ok, 1, 1⟩ envClean, .result ⟨.critical, 2, 2⟩ envDowntime,
+    .fire fireSoon, .fire fireShort, .fire fireShort]).map notifsOf =
+    [[], [], [], [⟨.problem, .critical⟩], []] := by decide
+
+/-- `release_at_first_ready_firing` applies to a concrete state: hypotheses are satisfiable. -/
+example : ∃ s : St, s.sup.hasState = true ∧ ready s fireSuppressed = false ∧ ready s fireShort = true :=
+  ⟨{ core := { state := .critical, stype := .hard, attempt := 1, lastHard := .critical, lastExec := some 2 },
+     sup := { problem := true }, sbs := .ok }, by decide⟩
+
+/-- `model_trace_meets_spec_from`: a restored object with a withheld Recovery and remembered WARNING. -/
+def exRestored : St :=
+  { core := { state := .ok, stype := .hard, attempt := 1, lastHard := .ok, lastExec := some 2 },
+    sup := { recovery := true, flapEnd := true }, sbs := .warning }
+example : StartOK exCfg exRestored := by
+  constructor <;> decide
 
 /-- The specification rejects a trace in which the withheld Problem is released while still suppressed. -/
 example : specTrace exCfg specInit
-    [.result true .ok .hard envClean [], .result true .critical .hard envDowntime [],
-     .fire { fireClean with stateSuppressed := true } [⟨.problem, .critical⟩]] = some .fireSuppressed := by decide
+    [.result true .ok .hard envClean [] false .ok, .result true .critical .hard envDowntime [] true .ok,
+     .fire fireSuppressed [⟨.problem, .critical⟩] true .ok] = some .fireSuppressed := by decide
 
-/-- … and one in which a Recovery is requested for a soft problem that went away. -/
+/-- … one in which a Recovery is requested for a soft problem that went away … -/
 example : specTrace { kind := .service, max := 3, volatile := false } specInit
-    [.result true .ok .hard envClean [], .result true .critical .soft envClean [],
-     .result true .ok .hard envClean [⟨.recovery, .ok⟩]] = some .stateNone := by decide
+    [.result true .ok .hard envClean [] false .ok, .result true .critical .soft envClean [] false .ok,
+     .result true .ok .hard envClean [⟨.recovery, .ok⟩] false .ok] = some .stateNone := by decide
+
+/-- … one in which the withheld Problem is not released although the 30 s-interval object's next check
+    is 25 s away (the handler regarded "within a minute" as imminent) … -/
+example : specTrace exCfg specInit
+    [.result true .ok .hard envClean [] false .ok, .result true .critical .hard envDowntime [] true .ok,
+     .fire fireShort [] true .ok] = some .fireRelease := by decide
+
+/-- … and one in which the remembered state is not the hard state before suppression began. -/
+example : specTrace exCfg specInit
+    [.result true .warning .hard envClean [⟨.problem, .warning⟩] false .ok,
+     .result true .critical .hard envDowntime [] true .ok] = some .remembered := by decide
+
+/-! ## The handler and a concurrent result (F-C02c)
+
+  Full statement — FALSE of the unchanged code, see `handler_result_pair_counterexample`:
+
+    theorem handler_result_pair (c) (hmax : 1 ≤ c.max) (sp s ef ef' r er) (hr : Rel c sp s) :
+      let o := fireResultStep c s ef r er
+      (specFireResult c sp ef ef' o.2.2.1 o.1.core.state o.1.core.stype er o.2.1 o.1.sup.hasState o.1.sbs).1 = none
+
+  i.e. a handler run and a check result processed by another thread in between the handler's unlocked read
+  of `suppressed_notifications` (checkable-notification.cpp:143) and its write (:237-245) look like one of
+  the two sequential orders. -/
+
+/-- **handler_result_pair_partial.**  When the handler requests nothing at that run (there is no point at
+    which the result could slip in between its decision and its bookkeeping), the pair satisfies the
+    property as "handler, then result" — for every state and all environments. -/
+theorem handler_result_pair_partial (c : Cfg) (hmax : 1 ≤ c.max) (sp : SpecSt) (s : St) (ef ef' : FEnv) (r : Res) (er : REnv)
+    (hr : Rel c sp s) (hq : (fireStep c s ef).2 = []) :
+    let o := fireResultStep c s ef r er
+    (specFireResult c sp ef ef' o.2.2.1 o.1.core.state o.1.core.stype er o.2.1 o.1.sup.hasState o.1.sbs).1 = none := by
+  intro o
+  have ho : o = ((resultStep c (fireStep c s ef).1 r er).1, (resultStep c (fireStep c s ef).1 r er).2.1,
+      (resultStep c (fireStep c s ef).1 r er).2.2, false) := by
+    show fireResultStep c s ef r er = _
+    unfold fireResultStep
+    simp [hq]
+  obtain ⟨f1, f2⟩ := fire_step_core c sp s ef hr
+  simp only [applyOp, hq] at f1 f2
+  obtain ⟨g1, g2⟩ := result_step_meets_spec c hmax _ _ r er f2
+  simp only [applyOp] at g1 g2
+  obtain ⟨rest, hs⟩ := splits_head o.2.1
+  unfold specFireResult
+  rw [hs]
+  simp only [List.findSome?_cons]
+  have e1 : specStepCore c sp (Obs.fire ef [] false SState.ok) = specStepCore c sp (Obs.fire ef [] (fireStep c s ef).1.sup.hasState (fireStep c s ef).1.sbs) := rfl
+  rw [e1]
+  generalize hA : specStepCore c sp (Obs.fire ef [] (fireStep c s ef).1.sup.hasState (fireStep c s ef).1.sbs) = A at f1 f2 g1 g2
+  obtain ⟨A1, A2⟩ := A
+  simp only at f1; subst f1
+  simp only [ho]
+  simp only at g1 g2
+  generalize hB : specStep c A2 _ = B at g1 g2 ⊢
+  obtain ⟨B1, B2⟩ := B
+  simp only at g1; subst g1
+  simp
+
+/-- a hard CRITICAL service with a withheld Problem, remembered state OK, every suppression reason gone -/
+def cxS : St :=
+  { core := { state := .critical, stype := .hard, attempt := 1, lastHard := .critical, lastExec := some 2 },
+    sup := { problem := true }, sbs := .ok }
+
+/-- **handler_result_pair_counterexample** (F-C02c, reproduced on the real code by
+    corpus/C02/f_c02c_result_during_handler.ops).  The handler requests the Problem; the OK result that
+    arrives before the handler's subtraction is stashed as "pending" (the old bits are still set) and
+    then cleared unseen: a Problem was notified, the object is OK, nothing is withheld, and no Recovery
+    is or ever will be requested — neither "handler, then result" (Problem, Recovery) nor "result,
+    then handler" (nothing). -/
+theorem handler_result_pair_counterexample :
+    let o := fireResultStep exCfg cxS fireClean ⟨.ok, 3, 3⟩ envClean
+    o.2.1 = [⟨.problem, .critical⟩] ∧ o.1.core.state = .ok ∧ o.1.sup.hasState = false ∧
+    (specFireResult exCfg (specOf cxS) fireClean fireClean o.2.2.1 o.1.core.state o.1.core.stype envClean o.2.1
+      o.1.sup.hasState o.1.sbs).1 = some .lostUpdate := by decide
 
 end Icinga.C02
